@@ -170,7 +170,7 @@ def showImplL (ids : Bool) (p : ImplL) : String :=
   s!"H=[{showSet p.held}] T=[{joinSp p.table}] X={p.cursor}"
 
 def lstatusName : LStatus → String
-  | .ok => "ok" | .refused => "refused" | .notConnected => "notConnected" | .lost => "lost"
+  | .ok => "ok" | .refused => "refused" | .notConnected => "notConnected" | .lost => "lost" | .ackTimeout => "ackTimeout"
 
 def showModelL (ids : Bool) (U : List Int) (x : LPhase × Mgr) : String :=
   let cl := x.1.cl
@@ -188,12 +188,14 @@ def showModelL (ids : Bool) (U : List Int) (x : LPhase × Mgr) : String :=
 def toLObs (p : ImplL) : LObs :=
   { status := if p.ph.status == "ok" then some .ok else if p.ph.status == "refused" then some .refused
               else if p.ph.status == "notConnected" then some .notConnected
-              else if p.ph.status == "lost" then some .lost else none,
+              else if p.ph.status == "lost" then some .lost
+              else if p.ph.status == "ackTimeout" then some .ackTimeout else none,
     nframes := p.ph.nframes, view := ⟨p.ph.sub, p.ph.paused, p.ph.delivered⟩, connected := p.connected,
     modId := p.modId, req := p.req, ack := p.ack, held := p.held }
 
 def parseLOp : List String → Option LOp
   | ["connect", a] => some (.connect (a == "1"))
+  | ["connectLate", a] => some (.connectLate (a == "1"))
   | ["disconnect"] => some .disconnect
   | ["lostRead", n] => some (.lostRead (n == "1"))
   | ["lostSend", n] => some (.lostSend (n == "1"))
